@@ -175,6 +175,13 @@ class C12(Check):
             for a, b in ((("heartbeat", "state"), ("pubkey", "hash")) if not self.thorough else
                          (("heartbeat", "state"), ("pubkey", "hash"), ("sign", "advance"), ("state", "state"))):
                 cs.append({"cmds": [a, b], "frag": [2, 2], "bound": self.bound - 1, "platform": plat})
+        # stream transports: one answer of the other end comes after whatever time limit the dongle class
+        # put on its socket (none on the unchanged tree: the exchange waits); nobody may read it as his
+        for plat in ("tcp", "sgx"):
+            for (a, b), late in (((("pubkey", "hash"), 0), (("sign", "state"), 1)) if not self.thorough else
+                                 ((("pubkey", "hash"), 0), (("sign", "state"), 1), (("hash", "hash"), 0),
+                                  (("advance", "pubkey"), 2), (("heartbeat", "state"), 1))):
+                cs.append({"cmds": [a, b], "frag": [1, 1], "bound": self.bound - 1, "platform": plat, "late": late})
         # a third client whose end is reset (or closed) in the middle of its line while the others wait
         for a, b in ((("sign", "state"), ("heartbeat", "pubkey")) if not self.thorough else
                      (("sign", "state"), ("heartbeat", "pubkey"), ("advance", "hash"), ("state", "state"))):
@@ -196,6 +203,9 @@ class C12(Check):
                 fail_ui_heartbeat(w)
             if "statecut" in cmds:
                 cut_state_answer(w)
+            if case.get("late") is not None:
+                base = w.seq
+                w.inject = lambda world, i, apdu: ("late",) if i - base == case["late"] else None
             frags = []
             for i, line in enumerate(lines):
                 if case["frag"][i] == 1:
@@ -245,7 +255,24 @@ class C12(Check):
         blocks = [self.solo[(i, k)][1] for i, k in enumerate(cmds) if not stops or i in answered]
         # with the real bring-up inside the run (and whatever it starts: a monitor thread, a timer),
         # exchanges that belong to no request may lie BETWEEN the blocks, never inside one
-        order = partition(apdus, blocks, gaps=bool(case.get("bringup")))
+        late = case.get("late") is not None
+        if late:
+            # the request that met the late answer may end in the device-error code (its block is then
+            # incomplete: what lies between the blocks of the others)
+            def bare_error(raw):
+                try:
+                    d = json.loads(raw.decode())
+                except Exception:   # noqa
+                    return False
+                return isinstance(d, dict) and list(d) == ["errorcode"] and d["errorcode"] in (-905, -906)
+            hit = [i for i, cl in enumerate(net.clients) if i < len(cmds) and cl.conn is not None
+                   and cl.conn.out != self.solo[(i, cmds[i])][0] and bare_error(cl.conn.out)]
+            if len(hit) > 1:
+                viol("wrong-or-missing-reply", {"clients_with_device_error": hit}, "at most the one that met the late answer")
+            blocks = [b for i, b in enumerate(self.solo[(i, k)][1] for i, k in enumerate(cmds)) if i not in hit]
+        else:
+            hit = []
+        order = partition(apdus, blocks, gaps=bool(case.get("bringup")) or bool(hit))
         labels = tuple(p[1].split("|")[0] for ch, p in zip(ctx.choices, ctx.points) if ch and not p[2])
         stats.observe((name, tuple(order) if order else None, labels, sched.deadlock),
                       nontrivial=any(ctx.choices))
@@ -269,6 +296,8 @@ class C12(Check):
             got = cl.conn.out if cl.conn is not None else None
             if stops and cmds[i] != "statecut" and not got:
                 continue          # the manager stopped before this client was served: nothing owed
+            if i in hit:
+                continue
             if got != want:
                 viol("wrong-or-missing-reply", {"client": i, "got": got, "connected": cl.conn is not None},
                      {"reply": want})
